@@ -65,6 +65,7 @@ fn reach(objs: &[MObj], roots: &[usize]) -> BTreeSet<usize> {
 
 /// Executes a history against the real collector and the model; Err(class, detail) on a disagreement
 pub fn run_history(ops: &[Op], check_c04: bool) -> Result<HistoryOutcome, (String, String)> {
+    crate::engine::note_current("history", &ops_json(ops).to_string());
     verif::heap_enable(true);
     verif::heap_reset();
     verif::take_events();
